@@ -24,7 +24,7 @@ use std::collections::{BTreeMap, HashSet};
 use std::path::Path;
 
 pub const HEADER: &str = "From Coq Require Import List NArith ZArith String.\nFrom V Require Import Base.Util Base.Result Model.Registry Model.Settings Model.Subst Model.Builders Model.RngWords Model.ExampleRust Corr.RunTG Corr.RunC14.\nFrom V Require Proofs.ConformsCase.\nImport ListNotations. Open Scope string_scope.";
-pub const EVALS: [(&str, &str); 24] = [
+pub const EVALS: [(&str, &str); 26] = [
     // hypotheses of the pinned theorem C14_prop_conforms_of_corr (Proofs/ConformsCase.v): observed module and
     // paths equal the model's, reader scope; with corr_example they IMPLY prop_conforms
     ("corr_module", "V.Proofs.ConformsCase.corr_module"),
@@ -42,6 +42,9 @@ pub const EVALS: [(&str, &str); 24] = [
     ("hyp_in_class", "hyp_in_class"),
     ("hyp_total_hyps", "hyp_total_hyps"),
     ("hyp_compact_wrapped", "hyp_compact_wrapped"),
+    // the Copy side condition of the array repeat form is exercised (arrays of >= 2 non-copy / copy elements)
+    ("hyp_array_noncopy", "hyp_array_noncopy"),
+    ("hyp_array_copy_repeat", "hyp_array_copy_repeat"),
     ("hyp_irb_accepts", "hyp_irb_accepts"),
     ("corr_example", "corr_example"),
     ("corr_settings", "corr_settings"),
